@@ -68,7 +68,7 @@ def _mon_setup():
 
 
 class Sched:
-    def __init__(self, bodies, plan, watchdog_s: float = 20.0, opcode_in=None):
+    def __init__(self, bodies, plan, watchdog_s: float = 20.0, opcode_in=None, inherit_context: bool = False):
         self.bodies = bodies
         self.n = len(bodies)
         self.sems = [threading.Semaphore(0) for _ in bodies]
@@ -83,6 +83,10 @@ class Sched:
         self.tids = {}
         self.use_mon = _mon_setup()
         self.on_point = None  # optional observer (tid, point number), called at every scheduling point
+        # inherit_context: every thread runs its body inside a COPY of the launching thread's contextvars context
+        # (what asyncio.to_thread, copy_context().run and - from Python 3.14 on, optionally - plain threads do)
+        self.inherit_context = inherit_context
+        self.ctxs = None
 
     def _point(self, code, line=None):
         """A library function is entered (or, inside a state-changing function, a line is reached) in the calling thread."""
@@ -124,7 +128,8 @@ class Sched:
         else:
             sys.settrace(self._tracer(tid))
         try:
-            self.results[tid] = ("ok", self.bodies[tid]())
+            body = self.bodies[tid] if self.ctxs is None else (lambda: self.ctxs[tid].run(self.bodies[tid]))
+            self.results[tid] = ("ok", body())
         except BaseException as e:  # noqa: BLE001 - the outcome is the observation
             self.results[tid] = ("exc", type(e).__name__, str(e)[:120])
         finally:
@@ -139,6 +144,10 @@ class Sched:
                 self.main.release()
 
     def run(self, start=0):
+        if self.inherit_context:
+            import contextvars
+
+            self.ctxs = [contextvars.copy_context() for _ in range(self.n)]
         ths = [threading.Thread(target=self._worker, args=(i,), daemon=True) for i in range(self.n)]
         _MON["current"] = self if self.use_mon else None
         for t in ths:
